@@ -22,9 +22,12 @@ import (
 	remoteexecution "github.com/bazelbuild/remote-apis/build/bazel/remote/execution/v2"
 	"github.com/buildbarn/bb-storage/pkg/blobstore"
 	"github.com/buildbarn/bb-storage/pkg/blobstore/buffer"
+	blobstore_configuration "github.com/buildbarn/bb-storage/pkg/blobstore/configuration"
 	"github.com/buildbarn/bb-storage/pkg/blobstore/sharding"
 	"github.com/buildbarn/bb-storage/pkg/blobstore/slicing"
 	"github.com/buildbarn/bb-storage/pkg/digest"
+	pb "github.com/buildbarn/bb-storage/pkg/proto/configuration/blobstore"
+	status_pb "google.golang.org/genproto/googleapis/rpc/status"
 	"google.golang.org/grpc/codes"
 	"google.golang.org/grpc/status"
 
@@ -397,6 +400,39 @@ func (b *recBackend) GetCapabilities(ctx context.Context, in digest.InstanceName
 	return nil, status.Error(codes.Unimplemented, "not part of C12")
 }
 
+// configuredStack builds a sharding composite the way bb_storage does: from a configuration
+// message, through NewBlobAccessFromConfiguration. Shard i is an `error` backend whose status has
+// code codeOf(i) and message "injected-<i>", so that an error observed at the top tells which
+// backend produced it. (The shards are a map in the configuration: their order is not ours.)
+func configuredStack(ss []shard) (ba blobstore.BlobAccess, reply string) {
+	shards := map[string]*pb.ShardingBlobAccessConfiguration_Shard{}
+	for i, sh := range ss {
+		shards[sh.key] = &pb.ShardingBlobAccessConfiguration_Shard{
+			Weight: sh.w,
+			Backend: &pb.BlobAccessConfiguration{Backend: &pb.BlobAccessConfiguration_Error{
+				Error: &status_pb.Status{Code: int32(cfgCode(i)), Message: fmt.Sprintf("injected-%d", i)}}},
+		}
+	}
+	var err error
+	if p := guard(func() {
+		var info blobstore_configuration.BlobAccessInfo
+		info, err = blobstore_configuration.NewBlobAccessFromConfiguration(nil,
+			&pb.BlobAccessConfiguration{Backend: &pb.BlobAccessConfiguration_Sharding{Sharding: &pb.ShardingBlobAccessConfiguration{Shards: shards}}},
+			blobstore_configuration.NewCASBlobAccessCreator(nil, 1<<20, nil))
+		ba = info.BlobAccess
+	}); p != "" {
+		return nil, "panic"
+	}
+	if err != nil {
+		return nil, "error:" + status.Code(err).String()
+	}
+	return ba, "ok"
+}
+
+func cfgCode(i int) codes.Code {
+	return []codes.Code{codes.Unavailable, codes.Internal, codes.NotFound, codes.DataLoss, codes.Aborted}[i%5]
+}
+
 // ---------------------------------------------------------------- one case
 
 type sut struct {
@@ -457,13 +493,13 @@ func errInfo(err error) (code codes.Code, key string, origin int) {
 	code = status.Code(err)
 	msg := status.Convert(err).Message()
 	key, origin = "?", -1
-	i := strings.LastIndex(msg, ": injected-")
+	i := strings.LastIndex(msg, "injected-")
 	if i >= 0 {
-		if o, e := strconv.Atoi(msg[i+len(": injected-"):]); e == nil {
+		if o, e := strconv.Atoi(msg[i+len("injected-"):]); e == nil {
 			origin = o
 		}
-		if strings.HasPrefix(msg, "Shard ") && i >= len("Shard ") {
-			key = msg[len("Shard "):i]
+		if strings.HasPrefix(msg, "Shard ") && i >= len("Shard ")+2 && msg[i-2:i] == ": " {
+			key = msg[len("Shard ") : i-2]
 		}
 	}
 	return
@@ -473,6 +509,7 @@ type caseResult struct {
 	what, detail string
 	lines, impl  []string
 	relaxed      map[int]bool // line indices compared only up to "-> error"
+	tail         map[int]bool // line indices compared only from "-> " on (the calls are not observable)
 	pairs        int          // (map, hash) evaluations
 	nontrivial   bool
 }
@@ -520,10 +557,13 @@ func parseHashes(ws []string) ([]uint64, bool) {
 // execute runs a script against the real code, producing the model's request lines with the
 // implementation's replies, and checks the C12 oracle on the way.
 func execute(script []string, permLimit int) *caseResult {
-	res := &caseResult{relaxed: map[int]bool{}}
+	res := &caseResult{relaxed: map[int]bool{}, tail: map[int]bool{}}
 	st := &access{returned: map[int][]string{}, fm: map[int]fmAns{}, gp: map[int]codes.Code{}, waitAbove: -1}
 	s := &sut{st: st, routes: map[uint64]int{}}
 	ordered := true
+	var cfgBA blobstore.BlobAccess
+	var cfgShards []shard
+	var cfgRef sharding.ShardSelector
 	emit := func(line, reply string) {
 		res.lines = append(res.lines, line)
 		res.impl = append(res.impl, reply)
@@ -793,6 +833,137 @@ func execute(script []string, permLimit int) *caseResult {
 				continue
 			}
 			emit(line, "ok")
+		case "#cfgstack":
+			// a stack built from a configuration message; the model gets the same shard list with
+			// every backend failing the way the `error` backends do
+			ss, ok := parseShards(w[1:])
+			if !ok || len(ss) == 0 {
+				continue
+			}
+			cfgBA, cfgShards = nil, nil
+			emit(selLine(ss), s.install(ss))
+			if s.sel == nil {
+				continue
+			}
+			st.fm, st.gp = map[int]fmAns{}, map[int]codes.Code{}
+			emit("clear", "ok")
+			for i := range ss {
+				st.gp[i] = cfgCode(i)
+				st.fm[i] = fmAns{kind: "err", code: cfgCode(i)}
+				emit(fmt.Sprintf("gpans %d err %d", i, cfgCode(i)), "ok")
+				emit(fmt.Sprintf("fmans %d err %d", i, cfgCode(i)), "ok")
+			}
+			ba, reply := configuredStack(ss)
+			if ba == nil {
+				if allPositive(ss) {
+					res.fail("a valid sharding configuration was rejected", selLine(ss)+": "+reply)
+				}
+				continue
+			}
+			cfgBA, cfgShards = ba, ss
+			cfgRef, _ = newSelector(ss)
+		case "cget", "cput", "cgetc":
+			if cfgBA == nil || len(w) < 2 {
+				continue
+			}
+			d, first8, ok := parseDigest(w[1])
+			d2 := d
+			if w[0] == "cgetc" {
+				if len(w) != 3 {
+					continue
+				}
+				var ok2 bool
+				d2, _, ok2 = parseDigest(w[2])
+				ok = ok && ok2
+			} else if len(w) != 2 {
+				continue
+			}
+			if !ok {
+				continue
+			}
+			var err error
+			p := guard(func() {
+				switch w[0] {
+				case "cget":
+					_, err = cfgBA.Get(context.Background(), d).ToByteSlice(1000)
+				case "cput":
+					err = cfgBA.Put(context.Background(), d, buffer.NewValidatedBufferFromByteSlice([]byte("payload")))
+				default:
+					_, err = cfgBA.GetFromComposite(context.Background(), d, d2, nil).ToByteSlice(1000)
+				}
+			})
+			if p != "" {
+				res.fail("the sharding composite panicked", fmt.Sprintf("%s: %s", line, p))
+				continue
+			}
+			want, _ := getShard(cfgRef, len(cfgShards), first8)
+			c, key, origin := errInfo(err)
+			arg := w[1]
+			if w[0] == "cgetc" {
+				arg += ">" + w[2]
+			}
+			if err == nil {
+				res.fail("a backend error was swallowed by the sharding composite", line)
+				emit(strings.Join(append([]string{w[0][1:]}, w[1:]...), " "), fmt.Sprintf("%s?=%s ok", w[0][1:], arg))
+				continue
+			}
+			if origin != want {
+				res.fail("a configured sharding stack addressed a backend other than the one the selector assigns to the digest's leading hash bytes",
+					fmt.Sprintf("%s over %s: answered by backend %d, selector says %d (%v)", line, selLine(cfgShards), origin, want, err))
+			} else if key != cfgShards[origin].key || c != cfgCode(origin) {
+				res.fail("an error returned through the sharding composite does not carry the failing shard's key and code",
+					fmt.Sprintf("%s over configured stack %s: got %v, failing backend %d key %q code %d", line, selLine(cfgShards), err, origin, cfgShards[origin].key, cfgCode(origin)))
+			}
+			res.nontrivial = true
+			emit(strings.Join(append([]string{w[0][1:]}, w[1:]...), " "), fmt.Sprintf("%s%d=%s error %d shard %s", w[0][1:], origin, arg, c, key))
+		case "cfm":
+			if cfgBA == nil {
+				continue
+			}
+			sb := digest.NewSetBuilder(len(w))
+			owners := map[int]bool{}
+			ok := true
+			seen := map[string]bool{}
+			for _, t := range w[1:] {
+				d, f8, okd := parseDigest(t)
+				ok = ok && okd && !seen[t]
+				seen[t] = true
+				if okd {
+					sb.Add(d)
+					o, _ := getShard(cfgRef, len(cfgShards), f8)
+					owners[o] = true
+				}
+			}
+			if !ok {
+				continue
+			}
+			var out digest.Set
+			var err error
+			if p := guard(func() { out, err = cfgBA.FindMissing(context.Background(), sb.Build()) }); p != "" {
+				res.fail("the sharding composite panicked", fmt.Sprintf("%s: %s", line, p))
+				continue
+			}
+			n := len(res.lines)
+			res.tail[n] = true
+			if len(owners) >= 2 {
+				res.relaxed[n] = true
+			}
+			if err == nil {
+				if len(owners) > 0 {
+					res.fail("a backend error was swallowed by the sharding composite", line)
+				}
+				emit("fm "+strings.Join(w[1:], " "), "calls ? -> ok "+strings.Join(setToks(out), ","))
+				continue
+			}
+			c, key, origin := errInfo(err)
+			if !owners[origin] {
+				res.fail("FindMissing reported an error although no asked backend failed", fmt.Sprintf("%s over configured stack %s: %v", line, selLine(cfgShards), err))
+			} else if key != cfgShards[origin].key || c != cfgCode(origin) {
+				res.fail("an error returned through the sharding composite does not carry the failing shard's key and code",
+					fmt.Sprintf("%s over configured stack %s: got %v, failing backend %d key %q code %d", line, selLine(cfgShards), err, origin, cfgShards[origin].key, cfgCode(origin)))
+			}
+			res.nontrivial = true
+			emit("fm "+strings.Join(w[1:], " "), fmt.Sprintf("calls ? -> error %d shard %s", c, key))
 		case "dump":
 			// the constructor's stored list, read through reflection (skipped when the selector has
 			// another shape: then there is nothing to compare, the behavioural checks remain)
@@ -1053,6 +1224,13 @@ func execute(script []string, permLimit int) *caseResult {
 	return res
 }
 
+func tailOf(s string) string {
+	if i := strings.Index(s, "-> "); i >= 0 {
+		return s[i:]
+	}
+	return s
+}
+
 func relax(s string) string {
 	if i := strings.Index(s, "-> error"); i >= 0 {
 		return s[:i+len("-> error")]
@@ -1073,6 +1251,9 @@ func runCase(run *hx.Run, model *hx.Model, name string, script []string, permLim
 		}
 		for i := range mo {
 			a, b := res.impl[i], mo[i]
+			if res.tail[i] {
+				a, b = tailOf(a), tailOf(b)
+			}
 			if res.relaxed[i] {
 				a, b = relax(a), relax(b)
 			}
@@ -1531,6 +1712,92 @@ func genPrefixFamilyCase(r *hx.Rand, run *hx.Run, maxN int) []string {
 	return script
 }
 
+var prefixesOfInterest = []uint64{0, 0, 1, 1 << 63, ^uint64(0), 2, 255, 1 << 32}
+
+func digestWithPrefix(r *hx.Rand, prefix uint64) string {
+	hb := r.Bytes([]int{16, 20, 32, 32, 48, 64}[r.Intn(6)])
+	binary.BigEndian.PutUint64(hb[:8], prefix)
+	// never size 0: a configured CAS stack answers for the empty blob itself (EmptyBlobInjecting), above the sharding layer
+	return fmt.Sprintf("%s:%s:%d", instanceNames[r.Intn(len(instanceNames))], hex.EncodeToString(hb), r.PickInt(1, 5, 77))
+}
+
+// genFreshCase: every rotation of a shard list gets a brand new composite, and the very first
+// operation on it carries a digest whose leading eight hash bytes are a boundary value (all
+// zero, 1, 2^63, all ones, ...); then the same digest again and alternations A B A, so that
+// anything a composite might remember between calls (it must not matter) is exercised.
+func genFreshCase(r *hx.Rand, run *hx.Run, maxN int) []string {
+	n := r.Range(2, maxN)
+	ss := genShards(r, n)
+	run.Count(fmt.Sprintf("access-shards:%d", n))
+	var script []string
+	op := func(t, other string) string {
+		switch r.Intn(4) {
+		case 0:
+			return "get " + t
+		case 1:
+			return "put " + t
+		case 2:
+			return "fm " + t
+		}
+		return "getc " + t + " " + other
+	}
+	for rot := 0; rot < n; rot++ {
+		list := append(append([]shard{}, ss[rot:]...), ss[:rot]...)
+		script = append(script, selLine(list))
+		a := digestWithPrefix(r, prefixesOfInterest[r.Intn(len(prefixesOfInterest))])
+		b := digestWithPrefix(r, prefixesOfInterest[r.Intn(len(prefixesOfInterest))])
+		if r.Chance(1, 2) {
+			b = digestWithPrefix(r, r.Uint64())
+		}
+		run.Count("op:first-on-fresh-composite-with-boundary-prefix")
+		script = append(script, op(a, b), op(a, b), op(b, a), op(a, b), op(b, a), op(b, a))
+		if r.Chance(1, 2) {
+			script = append(script, "fm "+strings.Join(dedupSorted([]string{a, b}), " "))
+		}
+	}
+	return script
+}
+
+// genConfigCase: the composite as bb_storage builds it, from a configuration message, with 1..4
+// shards whose backends are `error` backends with distinct codes and messages.
+func genConfigCase(r *hx.Rand, run *hx.Run) []string {
+	n := r.Range(1, 4)
+	ss := genShards(r, n)
+	run.Count(fmt.Sprintf("configured-stack-shards:%d", n))
+	script := []string{"#cfgstack " + strings.TrimPrefix(selLine(ss), "sel ")}
+	var pool []string
+	for i := r.Range(2, 6); i > 0; i-- {
+		if r.Chance(1, 3) {
+			pool = append(pool, digestWithPrefix(r, prefixesOfInterest[r.Intn(len(prefixesOfInterest))]))
+		} else {
+			pool = append(pool, digestWithPrefix(r, r.Uint64()))
+		}
+	}
+	pool = dedupSorted(pool)
+	pick := func() string { return pool[r.Intn(len(pool))] }
+	for i := r.Range(3, 8); i > 0; i-- {
+		switch r.Intn(5) {
+		case 0:
+			script = append(script, "cget "+pick())
+		case 1:
+			script = append(script, "cput "+pick())
+		case 2:
+			script = append(script, "cgetc "+pick()+" "+pick())
+		case 3:
+			script = append(script, "cfm "+pick())
+		default:
+			var sub []string
+			for _, t := range pool {
+				if r.Chance(1, 2) {
+					sub = append(sub, t)
+				}
+			}
+			script = append(script, strings.TrimSpace("cfm "+strings.Join(sub, " ")))
+		}
+	}
+	return script
+}
+
 func leafScripts(r *hx.Rand, xs []uint64) [][]string {
 	var all [][]string
 	var cur []string
@@ -1605,6 +1872,7 @@ func TestC12(t *testing.T) {
 	run.SetRule("shard maps of 1..5 shards (weights 1, 2, 2^32-1, random), object hashes aimed at the boundaries of the fixed point score " +
 		"(by inverting splitmix64), exact score ties, maps whose weights are all equal but one or share a common factor (with near-tie hashes), every permutation / removal / one addition per map; composites over recording " +
 		"backends with scripted FindMissing/Get/Put/GetFromComposite faults, sibling digests sharing their leading 8 hash bytes and cousin digests sharing only 1..7; " +
+		"fresh composites per rotation with boundary-prefix digests first; stacks built from configuration messages over error backends; " +
 		"a case is non-trivial when it exercises permutation/removal/addition on >= 2 shards or an operation of the composite; distinct by script hash")
 	permN := run.Scale(4, 5)
 	permLimit := 120
@@ -1725,6 +1993,13 @@ func TestC12(t *testing.T) {
 	for i := 0; i < n && !enough(); i++ {
 		r := hx.NewRand(run.Seed, "C12-access", i)
 		handle(fmt.Sprintf("seed%d/access%d", run.Seed, i), genAccessCase(r, run, 5))
+	}
+	n = run.Scale(300, 4000)
+	for i := 0; i < n && !enough(); i++ {
+		handle(fmt.Sprintf("seed%d/fresh%d", run.Seed, i), genFreshCase(hx.NewRand(run.Seed, "C12-fresh", i), run, 5))
+	}
+	for i := 0; i < n && !enough(); i++ {
+		handle(fmt.Sprintf("seed%d/config%d", run.Seed, i), genConfigCase(hx.NewRand(run.Seed, "C12-config", i), run))
 	}
 	n = run.Scale(400, 6000)
 	for i := 0; i < n && !enough(); i++ {
